@@ -39,7 +39,10 @@ INJECTIONS = ['success', 'malformed', 'bad_envelope', 'unknown_method', 'invalid
               'genfunction_late_fault', 'genfunction_late_exc',
               'invalid_argument_range', 'bad_envelope_scalar', 'malformed_declared', 'malformed_charset', 'malformed_declared_other', 'malformed_badbytes', 'success_declared',
               'success_returns0', 'success_returns2', 'success_returns3', 'function_fault_returns2', 'return_listener_exc_returns2@method']
-LAYOUTS = ('app_only', 'all_levels', 'duplicates', 'diamond', 'late')
+LAYOUTS = ('app_only', 'all_levels', 'duplicates', 'diamond', 'late', 'member')
+# 'member': the method called is a member method (@mrpc) of a class, bound to the service with _service_class
+MEMBER_INJECTIONS = ('success', 'unknown_method', 'invalid_argument', 'invalid_argument_range', 'call_listener_fault@app', 'call_listener_exc@app',
+                     'call_listener_fault@service', 'call_listener_exc@method', 'return_listener_fault@app', 'return_listener_exc@service', 'function_fault', 'function_exc')
 INHERITED = ('service_base', 'service_grand', 'service_base2')
 
 
@@ -101,7 +104,8 @@ def build(kind, layout, injection, trace):
     method_mgr = EventManager(None)
     sub_events = [e for e in EVENTS if e not in ('method_context_created', 'method_context_closed')]
     late = layout == 'late'
-    if late:
+    member = layout == 'member'
+    if late or member:
         layout = 'all_levels'
     multi = layout != 'app_only'
     dup = layout == 'duplicates'
@@ -177,8 +181,29 @@ def build(kind, layout, injection, trace):
         attach(Svc.event_manager, 'service', sub_events, 2, dup)
         attach(method_mgr, 'method', sub_events, 2, dup)
 
+    services = [Svc]
+    if member:
+        from spyne import ComplexModel, mrpc
+
+        class Thing(ComplexModel):
+            __namespace__ = M.TNS
+            id = Integer
+
+            @classmethod
+            def __respawn__(cls, ctx=None, filters=None):
+                return ctx.in_object[0]
+
+            # (the name 'f' of the plain method stays taken: this one is published as Thing.f)
+            f = mrpc(ArgInt, _returns=Integer, _service_class=Svc, _evmgrs=shared_mgrs)(lambda self, ctx, n: body(ctx, n))
+
+        class Things(Service):
+            @rpc(_returns=Thing)
+            def get_thing(ctx):
+                return Thing(id=1)
+        services = [Svc, Things]
+
     inp, outp = M.make_protocols(kind, 'soft')
-    app = Application([Svc], M.TNS, name='EvApp', in_protocol=inp, out_protocol=outp)
+    app = Application(services, M.TNS, name='EvApp', in_protocol=inp, out_protocol=outp)
     attach(app.event_manager, 'app', EVENTS, 2 if multi else 1, dup)
 
     # the raising listener goes last on its manager
@@ -201,8 +226,14 @@ def build(kind, layout, injection, trace):
     return app
 
 
-def request_for(kind, injection):
+def request_for(kind, injection, layout=None):
     inj = strip_returns(injection)[0].partition('@')[0]
+    if layout == 'member':
+        arg = {'unknown_method': 1, 'invalid_argument': 'not-a-number', 'invalid_argument_range': 5000}.get(inj, 7)
+        try:
+            return M.encode_request(kind, 'Thing.nosuch' if inj == 'unknown_method' else 'Thing.f', [('self', {'id': 1}), ('n', arg)])
+        except Exception:
+            return None
     if inj == 'malformed':
         if kind in ('httprpc', 'httprpc-json'):
             return None
@@ -380,7 +411,7 @@ def _raiser_between(seq, level, ev):
 
 def run_case(R, kind, driver, layout, injection):
     trace = drive.Events()
-    req = request_for(kind, injection)
+    req = request_for(kind, injection, layout)
     if req is None:
         R.skip('injection not expressible for protocol')
         return
@@ -472,6 +503,8 @@ def run(spec, R):
     for layout in LAYOUTS:
         for inj in INJECTIONS:
             if layout == 'app_only' and ('@service' in inj or '@method' in inj):
+                continue
+            if layout == 'member' and inj not in MEMBER_INJECTIONS:
                 continue
             run_case(R, spec['kind'], spec['driver'], layout, inj)
 
